@@ -103,7 +103,7 @@ Section Step.
   Proof.
     intros (H0 & H1 & H2 & H3) H E. ds s.
     unfold L4, w_parked in H. unfold L0 in H0. unfold L1 in H1. unfold L2 in H2. unfold L3 in H3. cbn in H, H0, H1, H2, H3.
-    destruct H0 as (Ho & Hc & Hx & _ & _ & _ & Hwok).
+    destruct H0 as (Ho & Hc & Hx & _ & Hwok).
     destruct H1 as (Ha & Hq & _ & _ & Hl & _).
     destruct H2 as (F1 & F2 & F3 & F4 & F5 & F6 & F7 & F8 & F9).
     destruct H3 as (A1 & A3 & A4 & _ & _ & A7 & _).
